@@ -29,7 +29,7 @@ c44_hist(Ts, Steps, Insp, Final) :-
     c44_restore,
     c44_state(Final).
 
-c44_inspect(insp(Given, Right, Wrong, Non, probes(DQ, OC, UN))) :-
+c44_inspect(insp(Given, Right, Wrong, Non, probes(dq(DQ, DQ2), oc(OC, OC2, OC3), UN))) :-
     c44_state(S),
     c44_given(S, Given),
     c44_right(S, Right),
@@ -40,10 +40,14 @@ c44_inspect(insp(Given, Right, Wrong, Non, probes(DQ, OC, UN))) :-
     findall(V, current_prolog_flag(min_integer, V), N4),
     Non = [N1, N2, N3, N4],
     catch(( read_term_from_chars("\"ab\".", T, []) -> DQ = read(T) ; DQ = failed ), E1, c44_err(E1, DQ)),
+    c44_dq_consulted(DQ2),
     c44_outcome(\+ \+ (X = f(X)), OC),
+    c44_outcome(\+ \+ c44_oc_body(_), OC2),
+    c44_outcome(\+ \+ c44_oc_head(Y, f(Y)), OC3),
     % (unknown=warning makes the machine println! its warning on the process's real
     % stdout; the worker pool skips such non-protocol lines)
-    c44_outcome(c44_no_such_predicate_zz(1), UN).
+    c44_unknown_probes(UN).
+
 
 % F given, V unbound: all solutions
 c44_given([], []).
@@ -57,3 +61,36 @@ c44_right([F-V|S], [F-R|G]) :- c44_outcome(current_prolog_flag(F, V), R), c44_ri
 
 c44_wrong([], []).
 c44_wrong([F-_|S], [F-R|G]) :- c44_outcome(current_prolog_flag(F, c44_wrong_value), R), c44_wrong(S, G).
+
+% behavioural probes in compiled code ------------------------------------------
+% an undefined predicate reached through every call form
+c44_p_only :- c44_undef_only.
+c44_p_last :- true, c44_undef_last.
+c44_p_nonlast :- c44_undef_nonlast, true.
+c44_p_extra(X) :- c44_undef_extra(X).
+c44_p_ite :- ( c44_undef_ite -> true ; fail ).
+c44_p_neg :- \+ c44_undef_neg.
+
+c44_unknown_probes([call-A, only-B, last-C, nonlast-D, calln_clause-E, calln-F, user_q-G, lists_q-H, ite-I]) :-
+    c44_outcome(call(c44_undef_call), A),
+    c44_outcome(c44_p_only, B),
+    c44_outcome(c44_p_last, C),
+    c44_outcome(c44_p_nonlast, D),
+    c44_outcome(call(c44_p_extra, 1), E),
+    c44_outcome(call(c44_undef_calln, 1), F),
+    c44_outcome(user:c44_undef_mod, G),
+    c44_outcome(lists:c44_undef_mod2, H),
+    c44_outcome(c44_p_ite, I).
+
+% occurs_check in compiled code: body unification and head unification
+c44_oc_body(X) :- X = f(X).
+c44_oc_head(X, X).
+
+% double_quotes takes effect on text read after the change: consult a file
+% (written by the explorer) that contains  c44_dq_fact("ab").
+% (c44_dq_file/1 is appended to this text by the property module)
+c44_dq_consulted(R) :-
+    (   c44_dq_file(F) ->
+        catch(( consult(F), ( c44_dq_fact(X) -> R = fact(X) ; R = nofact ) ), E, c44_err(E, R))
+    ;   R = nofile
+    ).
